@@ -94,6 +94,9 @@ def ensure_lib():
     return [o for _, o in jobs]
 
 
+STANDALONE = {"pure"}      # drivers with their own main(): linked without harness/driver.o
+
+
 def ensure_driver(name, extra_flags=()):
     """build drivers/<name>.cpp -> executable path"""
     d = build_dir()
@@ -106,6 +109,8 @@ def ensure_driver(name, extra_flags=()):
     obj = exe + ".o"
     _compile(src, obj, extra_flags)
     tmp = exe + ".tmp%d" % os.getpid()
+    if name in STANDALONE:
+        objs = [o for o in objs if not o.endswith("driver.o")]
     _run([CXX, "-pthread", "-o", tmp, obj] + objs + ["-L" + BOOST_LIB, "-Wl,-rpath," + BOOST_LIB, "-lboost_thread", "-lboost_system", "-ldl", "-latomic"], "link " + name)
     os.replace(tmp, exe)
     os.remove(obj)
